@@ -381,11 +381,12 @@ func readPatterns(B int, small bool) []readPattern {
 }
 
 type readResult struct {
-	out   []byte
-	err   error // terminal error: io.EOF for a clean Read end, nil for a clean WriteTo
-	clean bool
-	panic string
-	calls int
+	out     []byte
+	err     error // terminal error: io.EOF for a clean Read end, nil for a clean WriteTo
+	clean   bool
+	panic   string
+	calls   int
+	skipped bool
 }
 
 // read buffers are checked out of a cache and returned on normal completion only, so a call
@@ -413,14 +414,29 @@ func putBuf(b []byte) {
 }
 
 func readBack(src io.Reader, p readPattern, limit int) readResult {
+	cls := p.Conc > 1
+	if hungClass[cls] {
+		hungSkipped++
+		return readResult{err: errSkippedHung, clean: true, skipped: true}
+	}
 	ch := make(chan readResult, 1)
 	go func() { ch <- readBack1(src, p, limit) }()
 	select {
 	case r := <-ch:
 		return r
 	case <-time.After(watchdog):
-		return readResult{err: errBlocked}
 	}
+	select {
+	case r := <-ch:
+		slowCalls++
+		return r
+	case <-time.After(4 * watchdog):
+	}
+	hungCount[cls]++
+	if hungCount[cls] >= 7 {
+		hungClass[cls] = true
+	}
+	return readResult{err: errBlocked}
 }
 
 func readBack1(src io.Reader, p readPattern, limit int) (res readResult) {
